@@ -147,8 +147,16 @@ func (w *c17World) checkCur(when string) bool {
 	}
 	var got []string
 	seen := map[uint32]bool{}
+	valCol := 1
+	if w.cur == "b" {
+		valCol = 0
+	}
 	for _, r := range rows {
-		got = append(got, fmt.Sprint(r.Vals[1]))
+		if len(r.Vals) != 2 {
+			w.fail("contents", "%s: database %s table t has rows of %d columns", when, w.cur, len(r.Vals))
+			return false
+		}
+		got = append(got, fmt.Sprint(r.Vals[valCol]))
 		if seen[r.RowID] {
 			w.fail("row-ids", "%s: row id %d twice in database %s", when, r.RowID, w.cur)
 			return false
@@ -249,7 +257,12 @@ func (w *c17World) events() []c17Event {
 	}
 	ev = append(ev, mkCreateDB("a"), mkCreateDB("B"), mkUse("a"), mkUse("b"), mkUse("nosuch"), mkUse("A"), mkUse("B"))
 	ev = append(ev, c17Event{"CREATE TABLE t", func(w *c17World) bool {
-		err := w.exec("CREATE TABLE t (a int, c varchar(255))")
+		// the two databases give their table t different column orders: a schema is a property of (database, table)
+		ddl := "CREATE TABLE t (a int, c varchar(255))"
+		if w.cur == "b" {
+			ddl = "CREATE TABLE t (c varchar(255), a int)"
+		}
+		err := w.exec(ddl)
 		if pe, ok := err.(*panicErr); ok {
 			w.fail("panic", "CREATE TABLE t with database %q selected: %v\n%s", w.cur, pe.val, trimStack(pe.stack))
 			return false
@@ -302,7 +315,11 @@ func (w *c17World) events() []c17Event {
 	ev = append(ev, c17Event{"INSERT", func(w *c17World) bool {
 		w.seq++
 		val := fmt.Sprintf("%s-%d", w.cur, w.seq)
-		err := w.exec(fmt.Sprintf("INSERT INTO t VALUES (%d, '%s')", w.seq, val))
+		q := fmt.Sprintf("INSERT INTO t VALUES (%d, '%s')", w.seq, val)
+		if w.cur == "b" {
+			q = fmt.Sprintf("INSERT INTO t VALUES ('%s', %d)", val, w.seq)
+		}
+		err := w.exec(q)
 		if pe, ok := err.(*panicErr); ok {
 			w.fail("panic", "INSERT with database %q selected: %v\n%s", w.cur, pe.val, trimStack(pe.stack))
 			return false
